@@ -136,6 +136,11 @@ func (fc *fnCtx) callFunction(st *State, x *ssa.Call, callee *ssa.Function, args
 	ordKey := fc.callOrdinal(callee, ins)
 	// caller-side ghost assertions `call f#k assert`
 	fc.callSiteAsserts(st, callee, ordKey, args)
+	if fc.specMode {
+		if v, ok := fc.specByContract(st, callee, args, false); ok {
+			return []Val{v}
+		}
+	}
 	if fc.specMode || c != nil && c.Inline || (c == nil && eng.autoInline(callee)) {
 		if fc.depth < maxInlineDepth {
 			if res, ok := fc.inlineCode(st, callee, args); ok {
@@ -166,6 +171,10 @@ func siteOrdinals(fn *ssa.Function) map[ssa.Instruction]int {
 	byName := map[string][]site{}
 	for _, b := range fn.Blocks {
 		for i, ins := range b.Instrs {
+			if _, isMU := ins.(*ssa.MapUpdate); isMU {
+				byName["mapupdate"] = append(byName["mapupdate"], site{ins, ins.Pos(), b.Index, i})
+				continue
+			}
 			call, ok := ins.(ssa.CallInstruction)
 			if !ok {
 				continue
@@ -176,6 +185,8 @@ func siteOrdinals(fn *ssa.Function) map[ssa.Instruction]int {
 				name = c.Method.Name()
 			} else if callee := c.StaticCallee(); callee != nil {
 				name = callee.Name()
+			} else if bi, ok := c.Value.(*ssa.Builtin); ok {
+				name = bi.Name()
 			} else {
 				continue
 			}
@@ -202,6 +213,10 @@ func siteOrdinals(fn *ssa.Function) map[ssa.Instruction]int {
 
 func (fc *fnCtx) siteOrd(ins ssa.Instruction, name string) int {
 	t := fc.top
+	if ins != nil && !fc.inline && !fc.specMode {
+		t.curPos = ins.Pos()
+		t.sitePos = ins.Pos()
+	}
 	if ins != nil && fc == t || (ins != nil && !fc.inline) {
 		if t.callOrds == nil {
 			t.callOrds = siteOrdinals(t.fn)
@@ -247,6 +262,7 @@ func (fc *fnCtx) siteAsserts(st *State, name, ordKey string, args []Val) {
 		for i, a := range args {
 			extra[fmt.Sprintf("arg%d", i)] = a
 		}
+		fc.top.curPos = fc.top.sitePos
 		env := fc.specEnv(st, extra)
 		g, err := env.goal(cs.Assert.Expr)
 		if err != nil {
@@ -678,6 +694,50 @@ func (fc *fnCtx) inlineCode(st *State, callee *ssa.Function, args []Val) ([]Val,
 	return results, true
 }
 
+// specByContract: a function whose contract has a postcondition of the form
+// `result == E` is, in specifications, the expression E over its parameters (the
+// contract is proved against the body separately). Used for functions that cannot be
+// inlined (loops); when anyway is false only loop-carrying functions take this route.
+func (fc *fnCtx) specByContract(st *State, fn *ssa.Function, args []Val, anyway bool) (Val, bool) {
+	c := fc.eng.contracts[fn]
+	if c == nil || c.Inline || fn.Signature.Results().Len() != 1 {
+		return Val{}, false
+	}
+	if !anyway {
+		hasLoop := false
+		for _, b := range fn.Blocks {
+			for _, s := range b.Succs {
+				if s.Dominates(b) {
+					hasLoop = true
+				}
+			}
+		}
+		if !hasLoop {
+			return Val{}, false
+		}
+	}
+	rn := resultNames(fn.Signature)
+	for _, e := range c.Ensures {
+		be, ok := e.Expr.(*ast.BinaryExpr)
+		if !ok || be.Op != token.EQL {
+			continue
+		}
+		id, ok := be.X.(*ast.Ident)
+		if !ok || (id.Name != "result" && id.Name != "result0" && id.Name != rn[0]) {
+			continue
+		}
+		env := fc.contractEnv(st, st, fn, args, nil)
+		v, err := env.eval(be.Y)
+		if err != nil {
+			continue
+		}
+		rt := fn.Signature.Results().At(0).Type()
+		v = env.coerce(v, rt)
+		return Val{T: v.T, Ty: rt}, true
+	}
+	return Val{}, false
+}
+
 // specCall evaluates a function application inside a specification.
 func (fc *fnCtx) specCall(st *State, fn *ssa.Function, args []Val) (Val, error) {
 	full := fn.String()
@@ -687,6 +747,9 @@ func (fc *fnCtx) specCall(st *State, fn *ssa.Function, args []Val) (Val, error) 
 		if len(res) == 1 {
 			return res[0], nil
 		}
+	}
+	if v, ok := fc.specByContract(st, fn, args, false); ok {
+		return v, nil
 	}
 	if fn.Blocks != nil && fc.depth < maxInlineDepth {
 		child := &fnCtx{eng: fc.eng, fn: fn, top: fc.top, defs: fc.defs, inline: true, specMode: true, depth: fc.depth + 1}
@@ -710,6 +773,9 @@ func (fc *fnCtx) specCall(st *State, fn *ssa.Function, args []Val) (Val, error) 
 			}
 		}
 	}
+	if v, ok := fc.specByContract(st, fn, args, true); ok {
+		return v, nil
+	}
 	// uninterpreted application (deterministic function of its arguments)
 	if sig.Results().Len() != 1 {
 		return Val{}, fmt.Errorf("cannot use %s in a specification (not inlinable, %d results)", fn.Name(), sig.Results().Len())
@@ -732,6 +798,14 @@ func (fc *fnCtx) specCall(st *State, fn *ssa.Function, args []Val) (Val, error) 
 // builtins
 
 func (fc *fnCtx) execBuiltin(st *State, x *ssa.Call, b *ssa.Builtin) {
+	if !fc.inline && !fc.specMode && fc.contract != nil && len(fc.contract.Calls) > 0 {
+		var vals []Val
+		for _, a := range x.Call.Args {
+			vals = append(vals, fc.get(st, a))
+		}
+		k := fc.siteOrd(x, b.Name())
+		fc.siteAsserts(st, b.Name(), fmt.Sprintf("%s@%d", b.Name(), k), vals)
+	}
 	args := x.Call.Args
 	intT := types.Typ[types.Int]
 	switch b.Name() {
@@ -1092,6 +1166,11 @@ func (fc *fnCtx) execMapUpdate(st *State, x *ssa.MapUpdate) {
 	m := fc.get(st, x.Map)
 	k := fc.get(st, x.Key)
 	v := fc.get(st, x.Value)
+	if !fc.inline && !fc.specMode && fc.contract != nil && len(fc.contract.Calls) > 0 {
+		// `call mapupdate#k assert ...`: ghost assertion at the k-th map store (arg0 map, arg1 key, arg2 value)
+		ord := fc.siteOrd(x, "mapupdate")
+		fc.siteAsserts(st, "mapupdate", fmt.Sprintf("mapupdate@%d", ord), []Val{m, k, v})
+	}
 	fc.oblige(st, "nilmap", "", not(eq(m.T, "0")), "assignment to entry in nil map", x.Pos(), false)
 	dn, ds, vn, vs, mt := fc.mapHeaps(m.Ty)
 	kt := fc.keyTerm(Val{T: k.T, Ty: mt.Key()})
